@@ -144,9 +144,13 @@ impl Vtx {
         while null_terminators_read != 5 {
             let mut strings_partial_buffer = [0u8; READ_STRING_BUFFER_SIZE];
             let bytes_read = reader.read(&mut strings_partial_buffer)?;
+            if bytes_read == 0 {
+                // End of file before all strings have been found
+                break;
+            }
             let mut current_buffer_bytes_count = 0;
             while current_buffer_bytes_count < bytes_read {
-                if let Some(pos) = strings_partial_buffer[current_buffer_bytes_count..]
+                if let Some(pos) = strings_partial_buffer[current_buffer_bytes_count..bytes_read]
                     .iter()
                     .position(|x| *x == b'\0')
                 {
